@@ -121,6 +121,13 @@ fn nested_one_of() -> Value {
     ]})
 }
 
+fn ap_members(ta: &str, tb: &str) -> Vec<Value> {
+    vec![
+        json!({"type": "object", "properties": {"a": {"type": "integer"}}, "required": ["a"], "additionalProperties": {"type": ta}}),
+        json!({"type": "object", "properties": {"a": {"type": "integer"}}, "additionalProperties": {"type": tb}}),
+    ]
+}
+
 fn unsat_members(g: &mut G) -> Vec<Value> {
     // a required member that is *declared nowhere* and forbidden by a closed sibling
     // yields a permissive type (known finding KF-018): avoided; the declared form is kept
@@ -183,8 +190,17 @@ pub fn gen_c09_case(g: &mut G) -> Value {
     // (in unsatisfiable cases Base is a closed object over `a`, so that a reference to it can play the closed sibling)
     let base = if unsat { json!({"type": "object", "properties": {"a": {"type": "integer"}}, "required": ["a"], "additionalProperties": false}) } else { object_member(g) };
     let scalar = !unsat && g.chance(1, 5);
+    // both members constrain additional members with a schema of their own
+    let both_ap = !unsat && !scalar && g.chance(1, 8);
     let members: Vec<Value> = if unsat {
         unsat_members(g)
+    } else if both_ap {
+        let (ta, tb) = *g.pick(&[("string", "boolean"), ("integer", "string"), ("string", "string"), ("boolean", "boolean")]);
+        let mut v = ap_members(ta, tb);
+        if g.chance(1, 2) {
+            v.reverse();
+        }
+        v
     } else if scalar {
         // conjunction of scalar restrictions: an enumeration of mixed literals and a type
         let lits = match g.below(3) {
@@ -251,6 +267,13 @@ pub fn gen_c09_case(g: &mut G) -> Value {
                 cands.push(Value::Object(o));
             }
         }
+    }
+    if both_ap {
+        for extra in [json!("s"), json!(true), json!(3), json!(2.5)] {
+            cands.push(json!({"a": 1, "more": extra}));
+        }
+        cands.push(json!({"a": 1}));
+        cands.push(json!({}));
     }
     if scalar {
         for lit in [json!(1), json!(2), json!(3.5), json!("auto"), json!(10), json!(20), json!("a"), json!(7), json!(2.5), json!(true), json!(4), json!("zz"), json!("127.0.0.1"), json!("::1"), json!("10.1.2.3")] {
@@ -345,6 +368,7 @@ impl Property for C09 {
                 (0..4).any(|k| m == &tuple_member(k))
                     || m == &json!({"$ref": "#/definitions/Base"})
                     || m == &json!({"type": "string"})
+                    || [("string", "boolean"), ("integer", "string"), ("string", "string"), ("boolean", "boolean")].iter().any(|(x, y)| ap_members(x, y).contains(m))
                     || m == &json!({"type": "string", "format": "ip"})
                     || m == &json!({"type": "string", "format": "ipv4"})
                     || m == &json!({"type": "string", "format": "ipv6"})
